@@ -113,7 +113,6 @@ def run(ctx):
     def mc(cfg, **kw):
         return lambda: ctx.tlc_mc(SPEC, "ProviderQueryManager.tla", cfg, workers=kw.pop("workers", W), **kw)
     jobs.append(("mc", mc("MCProviderQueryManager.cfg", timeout=1500, deadlock=False)))
-    jobs.append(("mc", mc("MCJoin.cfg", timeout=1500, deadlock=False)))
     jobs.append(("ctlS", mc("MCCtlStale.cfg", timeout=900, deadlock=False, expect_violation=True, workers=2)))
     jobs.append(("ctlO", mc("MCCtlMax.cfg", timeout=900, deadlock=False, expect_violation=True, workers=2)))
     jobs.append(("sim", mc("MCSim.cfg", timeout=1500, deadlock=False, simulate=(150 if q else 4000), depth=80, workers=2 if q else 8)))
@@ -125,8 +124,10 @@ def run(ctx):
         jobs.append(("live", mc("MCLive2.cfg", timeout=1500, deadlock=False, workers=4)))
         jobs.append(("conf", lambda: ctx.tlc_mc(SPEC, "ConfProviderQueryManager.tla", "MCConf1.cfg", workers=6, timeout=2400, deadlock=False)))
         jobs.append(("conf", lambda: ctx.tlc_mc(SPEC, "ConfProviderQueryManager.tla", "MCConf4.cfg", workers=6, timeout=2400, deadlock=False)))
+    if os.environ.get("VERIF_X04_SKIP_M"):                # developer switch (mutation self-tests): phase M does not depend on /repo
+        jobs = []
     gens = [("GenJoin4.cfg" if q else "GenJoin.cfg", None), ("GenKeys4.cfg" if q else "GenKeys.cfg", None),
-            ("GenMax.cfg", None), ("GenSim.cfg", (12 if q else 100))]
+            ("GenMax.cfg", None), ("GenDial.cfg", None), ("GenSim.cfg", (30 if q else 200))]
     for cfg, sim in gens:
         jobs.append(("gen", (lambda cfg=cfg, sim=sim: ctx.tlc_gen(SPEC, "GenProviderQueryManager.tla", cfg, timeout=2400,
                                                                  simulate=sim, depth=(240 if sim else None)))))
@@ -159,7 +160,7 @@ def run(ctx):
         return
 
     # ---------------------------------------------------------------- phase T
-    runs = 40 if q else 400
+    runs = 40 if q else 200
     recs, out, rc = ctx.go_run(binp, "TestVerifX04", pkg=PKG, mode="record", timeout=1500, env=dict(VERIF_RUNS=runs))
     if rc == 4 and recs and recs[-1].get("ev") == "Hang":
         pass                                              # a real-code liveness failure: the trace spec has no such event
